@@ -194,6 +194,9 @@ func tainted(d Doc, suffix string, taintPointers bool) Doc {
 		if p.Sex != "" {
 			p.Sex = ad(p.Sex)
 		}
+		if taintPointers {
+			p.P = ad(p.P)
+		}
 		for k := range p.Lines {
 			// only lines that carry a value (not a pointer)
 			if f := strings.SplitN(p.Lines[k], " ", 3); len(f) == 3 && !strings.HasPrefix(f[2], "@") {
@@ -299,7 +302,13 @@ func Seeded(w io.Writer, seed int64, kind string, n int) error {
 				}
 			}
 			tp := rng.Intn(3) == 0
-			c.Doc = tainted(base, Taint, tp)
+			c.Token = []string{Taint, Taint, `"<q7>&'`, `&<q7>`, `'"><q7>`, `<<q7>>`}[rng.Intn(6)]
+			if tp && rng.Intn(2) == 0 { // pointers of individuals as well (the diff report prints them)
+				for k := range base.People {
+					base.People[k].P = fmt.Sprintf("I%d", k+1)
+				}
+			}
+			c.Doc = tainted(base, c.Token, tp)
 			c.Twin = tainted(base, taintBenign, tp)
 			c.Prior = graph(rng, 1+rng.Intn(3), "")
 			c.Opts = subsetOpts(rng, []string{"show", "placeholder", "hide"}[rng.Intn(3)])
